@@ -169,6 +169,6 @@ theorem GenerateCodeChallenge_eq (E : Go.Ext) (method verifier : Str) :
     · simp [h1, h2, Except.map, pure, Except.pure]
 
 /-! non-vacuity: the equalities are about definitions that compute -/
-example : (Gen.Tr.validOptionalPort ⟨fun _ _ => [], fun _ => [], 0, fun _ => none, fun _ _ => false, fun _ => none, fun _ => none⟩ [':', '8', '0']) = .ok true := by rfl
+example : (Gen.Tr.validOptionalPort Go.Ext.trivial [':', '8', '0']) = .ok true := by rfl
 
 end O2P.TrSigned
